@@ -766,6 +766,8 @@ class Audit:
                 dims = self.dims_of(vals[0])
                 if dims and all(proves_lt(i, d, facts, s["loops"]) for i, d in zip(idx[1], dims)):
                     auto = "2-D index (%r, %r) within dims (%r, %r)" % (idx[1][0], idx[1][1], dims[0], dims[1])
+            elif isinstance(idx, tuple) and idx and idx[0] == "struct" and idx[1] == "RangeFull":
+                auto = "full range `[..]` cannot be out of bounds"
             elif isinstance(idx, Poly):
                 ln = self.len_of(vals[0])
                 if any(proves_lt(idx, l, facts, s["loops"]) for l in ln):
